@@ -318,7 +318,7 @@ type e2eCase struct {
 	nrefs int
 }
 
-var e2eNames = []string{"a", "b", "dir", "file.txt", "x y", "ü", "Makefile", "src", "README", "a.b", "z-1", "sp ace", "q\"uote", "back\\slash", "tab\tname", "star*", "[9]", "semi;colon", "caf\xe9.txt", "a\x01b", "del\x7f"}
+var e2eNames = []string{"a", "b", "dir", "file.txt", "x y", "ü", "Makefile", "src", "README", "a.b", "z-1", "sp ace", "q\"uote", "back\\slash", "tab\tname", "star*", "[9]", "semi;colon", "caf\xe9.txt", "a\x01b", "del\x7f", "{}", "{{cc.name}}", "x}", "at@{1}", "co:lon"}
 
 func genE2ERepo(r *rng, tier string) ([]gObj, []int64) {
 	var objs []gObj
@@ -353,7 +353,11 @@ func genE2ERepo(r *rng, tier string) ([]gObj, []int64) {
 				case e == 8 && len(blobs) > 0:
 					es = append(es, gEntry{0o120000, []byte(name), blobs[r.n(len(blobs))]})
 				default:
-					es = append(es, gEntry{0o160000, []byte(name), -1})
+					link := -1
+					if len(commits) > 0 && r.coin(1, 3) {
+						link = commits[r.n(len(commits))] // a submodule whose commit is stored in this repository
+					}
+					es = append(es, gEntry{0o160000, []byte(name), link})
 				}
 			}
 			objs = append(objs, gObj{kind: 't', entries: es})
@@ -413,7 +417,7 @@ func genE2ERefs(r *rng, objs []gObj) []string {
 	used := map[string]bool{}
 	for j := 0; j < nr; j++ {
 		p := refPrefixes[r.n(len(refPrefixes))]
-		name := p + []string{"main", "dev", "v1", "x", "feature/a", "zeta"}[r.n(6)]
+		name := p + []string{"main", "dev", "v1", "x", "feature/a", "zeta", "a{b", "main"}[r.n(8)]
 		if used[name] || used[name+"/"] {
 			continue
 		}
